@@ -540,7 +540,7 @@ func hostKey(mac []byte, ip netip.Addr, online bool) string {
 func (h *hostsRun) checkState(what string) {
 	w := h.w
 	if h.hostless {
-		apiUserCheckTables(h.exec, what)
+		apiUserCheckTables(h.exec, "C05.tables", what)
 		if h.step%5 == 0 {
 			printTable(h.exec)
 		}
@@ -614,7 +614,7 @@ func (h *hostsRun) checkState(what string) {
 			return
 		}
 	}
-	apiUserCheckTables(h.exec, what)
+	apiUserCheckTables(h.exec, "C05.tables", what)
 	if h.step%5 == 0 {
 		printTable(h.exec) // PrintTable asserts part of the invariant itself and panics if it fails
 	}
@@ -623,12 +623,12 @@ func (h *hostsRun) checkState(what string) {
 
 // checkTables is the structural invariant of C05, evaluated on the exported tables under
 // the session read lock.
-func apiUserCheckTables(e *exec, what string) {
+func apiUserCheckTables(e *exec, oracle, what string) {
 	s := e.w.S
 	s.VerifRLock()
 	defer s.VerifRUnlock()
 	bad := func(key, format string, a ...interface{}) {
-		e.violate("C05.tables", key, fmt.Sprintf("after %s: ", what)+fmt.Sprintf(format, a...))
+		e.violate(oracle, key, fmt.Sprintf("after %s: ", what)+fmt.Sprintf(format, a...))
 	}
 	seenMAC := map[string]bool{}
 	owner := map[*packet.Host]*packet.MACEntry{}
